@@ -19,15 +19,15 @@ import (
 )
 
 type c20Case struct {
-	Kind    string // client-stream | server-stream | bidi
-	Dir     string // c2s (client sends, handler receives) | s2c
-	N       int    // attempted sends
-	Size    int    // payload size
-	Header  bool   // s2c: the handler sends headers first (a pending header frame)
-	UseHdr  bool   // s2c: the client's first consuming call is Header() instead of RecvMsg
-	Recvs   []int  // after the k-th quiescent point the receiver performs Recvs[k] receives (0 = stays idle)
-	Ending  string // peer-finish | cancel
-	Heap    bool   // also bound the live heap of the stalled stream
+	Kind   string // client-stream | server-stream | bidi
+	Dir    string // c2s (client sends, handler receives) | s2c
+	N      int    // attempted sends
+	Size   int    // payload size
+	Header bool   // s2c: the handler sends headers first (a pending header frame)
+	UseHdr bool   // s2c: the client's first consuming call is Header() instead of RecvMsg
+	Recvs  []int  // after the k-th quiescent point the receiver performs Recvs[k] receives (0 = stays idle)
+	Ending string // peer-finish | cancel
+	Heap   bool   // also bound the live heap of the stalled stream
 }
 
 type c20Obs struct {
